@@ -243,33 +243,33 @@ def load (fs : FS) (p : Path) (mm : Bool) : Option Img :=
              srcScaled := c.scaled, mm := mm, fname := some p, cache := .none }
   | _ => none
 
+/-- ops other than `load` need a live image -/
+def withImg (s : St) (f : Img → Out × St) : Out × St :=
+  match s.img with
+  | none => (.noImg, s)
+  | some im => f im
+
 def step (orig : Bool) (s : St) : Op → Out × St
   | .load p mm =>
       match load s.fs p mm with
       | some im => (.loadOk, { s with img := some im })
       | none => (.loadErr, s)
-  | op =>
-    match s.img with
-    | none => (.noImg, s)
-    | some im =>
-      match op with
-      | .load _ _ => (.noImg, s)   -- unreachable
-      | .fdata =>
-          match getFdata s.fs im with
-          | some (d, im') => (.fdata d, { s with img := some im' })
-          | none => (.bad, s)
-      | .uncache => (.unit, { s with img := some { im with cache := .none } })
-      | .edit k => (.unit, { s with img := some { im with tag := k } })
-      | .setAff k => (.unit, { s with img := some { im with aff := k } })
-      | .setDt dt =>
-          if im.cls = .mgh ∧ mghOk dt = false then (.dtErr, s)
-          else (.dtOk, { s with img := some { im with dt := dt } })
-      | .save q =>
-          match save orig s.fs im q with
-          | (o, fs', im') => (o, { fs := fs', img := some im' })
-      | .toBytes =>
-          match toBytes s.fs im with
-          | (o, im') => (o, { s with img := some im' })
+  | .fdata => withImg s fun im =>
+      match getFdata s.fs im with
+      | some (d, im') => (.fdata d, { s with img := some im' })
+      | none => (.bad, s)
+  | .uncache => withImg s fun im => (.unit, { s with img := some { im with cache := .none } })
+  | .edit k => withImg s fun im => (.unit, { s with img := some { im with tag := k } })
+  | .setAff k => withImg s fun im => (.unit, { s with img := some { im with aff := k } })
+  | .setDt dt => withImg s fun im =>
+      if im.cls = .mgh ∧ mghOk dt = false then (.dtErr, s)
+      else (.dtOk, { s with img := some { im with dt := dt } })
+  | .save q => withImg s fun im =>
+      match save orig s.fs im q with
+      | (o, fs', im') => (o, { fs := fs', img := some im' })
+  | .toBytes => withImg s fun im =>
+      match toBytes s.fs im with
+      | (o, im') => (o, { s with img := some im' })
 
 /-- end-of-history usability probe: `get_fdata()` then `np.asanyarray(img.dataobj)` -/
 def probe (s : St) : Option (Option (Nat × Nat)) :=
